@@ -174,3 +174,20 @@ Definition Canon_dedup {A} `{EqDec A} : Canon A := {| norm := dedup; norm_In := 
 #[export] Instance Canon_prod {A B} `{EqDec A} `{EqDec B} : Canon (A * B) := Canon_dedup.
 #[export] Instance Canon_list {A} `{EqDec A} : Canon (list A) := Canon_dedup.
 #[export] Instance Canon_option {A} `{EqDec A} : Canon (option A) := Canon_dedup.
+
+(* equality and normalisation on sums, unit *)
+Definition sum_eqb {A B} `{EqDec A} `{EqDec B} (p q : A + B) : bool :=
+  match p, q with inl a, inl b => eqb a b | inr a, inr b => eqb a b | _, _ => false end.
+Lemma sum_eqb_spec {A B} `{EqDec A} `{EqDec B} (p q : A + B) : reflect (p = q) (sum_eqb p q).
+Proof.
+  destruct p as [a|a], q as [b|b]; cbn; try (constructor; congruence);
+    destruct (eqb_spec a b); constructor; congruence.
+Qed.
+#[export] Instance EqDec_sum {A B} `{EqDec A} `{EqDec B} : EqDec (A + B) :=
+  {| eqb := sum_eqb; eqb_spec := sum_eqb_spec |}.
+#[export] Instance Canon_sum {A B} `{EqDec A} `{EqDec B} : Canon (A + B) := Canon_dedup.
+Lemma unit_eqb_spec (p q : unit) : reflect (p = q) true.
+Proof. destruct p, q. now constructor. Qed.
+#[export] Instance EqDec_unit : EqDec unit := {| eqb := fun _ _ => true; eqb_spec := unit_eqb_spec |}.
+#[export] Instance Canon_unit : Canon unit := Canon_dedup.
+#[export] Instance Canon_bool : Canon bool := Canon_dedup.
